@@ -24,7 +24,7 @@ BUGS = ["stopKeepsStack", "staleChoiceAfterEnd", "restoreKeepsWaiting", "visitOn
 
 
 def mc_cfg(ctx, name, *, max_calls=12, max_polls=1, after_end=2, host_writes=False, max_host_sets=0, emit=True,
-           invariants=None, properties=None, bug=None):
+           invariants=None, properties=None, bug=None, max_snaps=0, max_restores=0):
     """Writes a config for MC_Runner.tla into the scratch dir; returns (cfg name, path)."""
     inv = list(invariants if invariants is not None else ALL_INVARIANTS)
     props = list(properties if properties is not None else ALL_PROPERTIES)
@@ -33,7 +33,8 @@ def mc_cfg(ctx, name, *, max_calls=12, max_polls=1, after_end=2, host_writes=Fal
     lines = ["SPECIFICATION Spec", "CONSTANTS",
              "  MaxCalls = %d" % max_calls, "  MaxPolls = %d" % max_polls, "  AfterEnd = %d" % after_end,
              "  HostWrites = %s" % ("TRUE" if host_writes else "FALSE"), "  MaxHostSets = %d" % max_host_sets,
-             "  EmitBeh = %s" % ("TRUE" if emit else "FALSE")]
+             "  EmitBeh = %s" % ("TRUE" if emit else "FALSE"),
+             "  MaxSnaps = %d" % max_snaps, "  MaxRestores = %d" % max_restores]
     if bug:
         lines.append("  Bug <- Bug_%s" % bug)
     else:
@@ -221,13 +222,19 @@ def run_core_check(ctx, spec):
         if not behs:
             raise vlib.MachineryError("MC_Runner emitted no behaviour")
         for bug, inv, props in sc.get("bugs", []):
-            kw = {k: v for k, v in mc.items() if k in ("max_calls", "max_polls", "after_end", "host_writes", "max_host_sets")}
+            kw = {k: v for k, v in mc.items() if k in ("max_calls", "max_polls", "after_end", "host_writes", "max_host_sets",
+                                                       "max_snaps", "max_restores")}
             nonvac[bug] = nonvacuity(ctx, cases_path, bug, inv, props, **kw)
         layouts = "random" if sc.get("layouts") else None
         stats, diffs = replay(ctx, cases_path, behs, layouts=layouts)
         for d in diffs:
             steps = behs[d["beh"]]["steps"]
-            prior = [s for s in steps[: max(d["step"], 0)] if s.get("ev") == "next"]
+            prior = []
+            for s in steps[: max(d["step"], 0)]:
+                if s.get("ev") == "restore":
+                    prior = []          # a restore starts a new life of the runner
+                elif s.get("ev") == "next":
+                    prior.append(s)
             info = {"after_end": any(s["out"]["k"] == "end" for s in prior),
                     "after_error": any(s["out"]["k"] == "error" for s in prior),
                     "pend": bool(d["step"] >= 0 and steps[d["step"]].get("pend")), "ev": "next", "family": sc["family"], "panic": d.get("panic")}
